@@ -36,7 +36,7 @@ theorem relayAfter_idle {c : SBody} (m : MonId) (r : CSt c.σ × SOut × Env) :
   cases o with
   | yield y => exact relayTop_idle m y cs env
   | ret v => intro _; simp [relayAfter]
-  | raise e => intro _; simp [relayAfter]
+  | raise e => intro _; cases e <;> simp [relayAfter]
 
 theorem finish_pending (op : Op) (o : CallOut) (y : YV) (h : op.finish o = .pending y) : o = .pending y := by
   cases op <;> cases o <;> simp [Op.finish] at h ⊢ <;> try exact h
@@ -169,6 +169,7 @@ def present (b : MBody) (m : MonId) (first : Bool) :
   | (st, .oob d, env) => (⟨st, env.set m 0⟩, .raised (.oobData d))
   | (st, .real y, env) => (⟨st, env.set m 1⟩, .pending y)
   | (st, .ret v, env) => (⟨st, env.set m 0⟩, .returned v)
+  | (st, .raise (.stopIter v), env) => (⟨st, env.set m 0⟩, .returned v)   -- a thrown-in StopIteration coming back
   | (st, .raise e, env) =>
     (⟨st, env.set m 0⟩, .raised (match first, e with
       | true, .oobData _ => .runtime rtRaisedOOB
